@@ -126,6 +126,16 @@ def ob_algs(chk, ir):
     chk.obligation('algorithms: only EdDSA / ES256 / ES384 / ES512 / RS256 are ever selected (never none / HS*)', 'key types ed25519, rsa, ecdsa (any curve), other, nil', verdict, paths=total, t=time.time() - t)
 
 
+def upgrade_args(ir, state, tok, level):
+    """arguments of updateAuthJWTWithNewAuthLevel by parameter type (the token first, further strings = the identity the caller vouches for)"""
+    fn = ir.funcs[f'(*{M}.RuntimeState).updateAuthJWTWithNewAuthLevel']; args = [state]; nstr = 0
+    for p in fn['params'][1:]:
+        if ir.tstr(p['type']) == 'string':
+            args.append(tok if nstr == 0 else z3.String('upgrade.' + p['name'])); nstr += 1
+        else: args.append(level)
+    return args
+
+
 def sql_model(H, ir):
     """minimal database/sql model for the single-row lookups of GetSigned: a row value is an arbitrary string (the row may have been tampered)"""
     def prepare(ex, st, a, ins):
@@ -217,7 +227,7 @@ def ob_consumers(chk, ir):
                      ('new level is the requested one', c['auth_type'] == z3.BitVec('newLevel', 64))]
             decide(chk, ex_, s, conj, 'consumers', 'updateAuthJWTWithNewAuthLevel', 'a session token is re-issued at a new level', out)
         ex.on_mint = on_mint
-        paths = ex.run(uname, [state, tok, z3.BitVec('newLevel', 64)], st); total += len(paths)
+        paths = ex.run(uname, upgrade_args(ir, state, tok, z3.BitVec('newLevel', 64)), st); total += len(paths)
         bad = [p for p in paths if p.status in ('unsupported', 'unwind')]
         if bad: chk.absorb(ex, paths); chk.obligation('consumers', uname, 'inconclusive', bad[0].result); return
         chk.absorb(ex, paths)
@@ -266,7 +276,7 @@ CONSUMERS = [
     ('session', lambda ir, ex, s, state, tok: (f'(*{M}.RuntimeState).getAuthInfoFromJWT', [state, tok, SV('keymaster_auth')]), lambda p: isinstance(p.result[-1], IfaceV) and p.result[-1].tid is None),
     ('cli', lambda ir, ex, s, state, tok: (f'(*{M}.RuntimeState).getAuthInfoFromJWT', [state, tok, SV('keymaster_webauth_for_cli_identity')]), lambda p: isinstance(p.result[-1], IfaceV) and p.result[-1].tid is None),
     ('storage', lambda ir, ex, s, state, tok: (f'(*{M}.RuntimeState).getStorageDataFromStorageStringDataJWT', [state, tok]), lambda p: isinstance(p.result[-1], IfaceV) and p.result[-1].tid is None),
-    ('session-upgrade', lambda ir, ex, s, state, tok: (f'(*{M}.RuntimeState).updateAuthJWTWithNewAuthLevel', [state, tok, z3.BitVec('c.level', 64)]), lambda p: isinstance(p.result[-1], IfaceV) and p.result[-1].tid is None),
+    ('session-upgrade', lambda ir, ex, s, state, tok: (f'(*{M}.RuntimeState).updateAuthJWTWithNewAuthLevel', upgrade_args(ir, state, tok, z3.BitVec('c.level', 64))), lambda p: isinstance(p.result[-1], IfaceV) and p.result[-1].tid is None),
 ]
 OWN = {'session': {'session', 'session-upgrade'}, 'cli': {'cli'}, 'storage': {'storage'}}
 
